@@ -7,7 +7,11 @@
 EXTENDS Naturals, Sequences, FiniteSets, SequencesExt, TLC
 
 CONSTANTS MaxRecords,   \* application operations (each produces one record with the next seqnum)
-          MaxCuts       \* connection losses
+          MaxCuts,      \* connection losses
+          Window        \* BOOLEAN: A is the Leader and B the Follower of real L2 connections.  Then A selects a new
+                        \* connection first (KCM, then its whole outbound queue again); whatever reaches B before
+                        \* B's own Connector.accept() turn waits in DilatedConnectionProtocol._inbound_record_queue
+                        \* and is handed to B's Manager, in arrival order, when B selects (connection.py)
 
 VARIABLES issued,     \* seqnums the application's operations were given, in order (0, 1, 2, ...)
           oq,         \* A's _outbound_queue: sent-or-unsent records not yet acked
@@ -17,12 +21,14 @@ VARIABLES issued,     \* seqnums the application's operations were given, in ord
           acks,       \* acks in flight B -> A
           wm,         \* B's _highest_inbound_acked, as wm+1 (0 = nothing yet)
           delivered,  \* seqnums dispatched to B's subchannels, in order
+          cand,       \* B's end of the current connection is a candidate: not selected yet (Window only)
+          inq,        \* records waiting in that candidate
           cuts,
           last
-vars == <<issued, oq, connA, connB, linkUp, wire, acks, wm, delivered, cuts, last>>
+vars == <<issued, oq, connA, connB, linkUp, wire, acks, wm, delivered, cand, inq, cuts, last>>
 
 Init == /\ issued = <<>> /\ oq = <<>> /\ connA = TRUE /\ connB = TRUE /\ linkUp = TRUE /\ wire = <<>> /\ acks = <<>>
-        /\ wm = 0 /\ delivered = <<>> /\ cuts = 0 /\ last = <<"Init", 0>>
+        /\ wm = 0 /\ delivered = <<>> /\ cand = FALSE /\ inq = <<>> /\ cuts = 0 /\ last = <<"Init", 0>>
 
 \* the application writes / opens / closes: build_record + queue_and_send_record
 AppSend == /\ Len(issued) < MaxRecords
@@ -30,17 +36,20 @@ AppSend == /\ Len(issued) < MaxRecords
               /\ issued' = Append(issued, s) /\ oq' = Append(oq, s)
               /\ wire' = IF connA /\ linkUp THEN Append(wire, s) ELSE wire
               /\ last' = <<"AppSend", s>>
-           /\ UNCHANGED <<connA, connB, linkUp, acks, wm, delivered, cuts>>
+           /\ UNCHANGED <<connA, connB, linkUp, acks, wm, delivered, cand, inq, cuts>>
 
 \* B receives the next record: ack (even when old), drop if old, else advance the watermark and dispatch
-DeliverRec == /\ linkUp /\ connB /\ wire # <<>>
+DeliverRec == /\ linkUp /\ (connB \/ cand) /\ wire # <<>>
               /\ LET s == Head(wire) IN
                  /\ wire' = Tail(wire)
-                 /\ acks' = Append(acks, s)
-                 /\ IF s + 1 <= wm THEN wm' = wm /\ delivered' = delivered
-                    ELSE wm' = s + 1 /\ delivered' = Append(delivered, s)
+                 /\ IF connB
+                    THEN /\ acks' = Append(acks, s)
+                         /\ IF s + 1 <= wm THEN wm' = wm /\ delivered' = delivered
+                            ELSE wm' = s + 1 /\ delivered' = Append(delivered, s)
+                         /\ inq' = inq
+                    ELSE inq' = Append(inq, s) /\ UNCHANGED <<acks, wm, delivered>>      \* selecting: queued in the connection
                  /\ last' = <<"DeliverRec", s>>
-              /\ UNCHANGED <<issued, oq, connA, connB, linkUp, cuts>>
+              /\ UNCHANGED <<issued, oq, connA, connB, linkUp, cand, cuts>>
 
 \* A receives an ack: everything up to it leaves the outbound queue
 DeliverAck == /\ linkUp /\ connA /\ acks # <<>>
@@ -48,26 +57,46 @@ DeliverAck == /\ linkUp /\ connA /\ acks # <<>>
                  /\ acks' = Tail(acks)
                  /\ oq' = SelectSeq(oq, LAMBDA s : s > a)
                  /\ last' = <<"DeliverAck", a>>
-              /\ UNCHANGED <<issued, connA, connB, linkUp, wire, wm, delivered, cuts>>
+              /\ UNCHANGED <<issued, connA, connB, linkUp, wire, wm, delivered, cand, inq, cuts>>
 
 \* the connection dies: whatever is in flight, either way, is lost (a mid-frame cut loses that frame)
 Cut == /\ linkUp /\ cuts < MaxCuts
        /\ linkUp' = FALSE /\ wire' = <<>> /\ acks' = <<>> /\ cuts' = cuts + 1
        /\ last' = <<"Cut", cuts + 1>>
-       /\ UNCHANGED <<issued, oq, connA, connB, wm, delivered>>
+       /\ UNCHANGED <<issued, oq, connA, connB, wm, delivered, cand, inq>>
 \* each side notices on its own (stop_using_connection)
 LossA == /\ ~linkUp /\ connA /\ connA' = FALSE /\ last' = <<"LossA", 0>>
-         /\ UNCHANGED <<issued, oq, connB, linkUp, wire, acks, wm, delivered, cuts>>
-LossB == /\ ~linkUp /\ connB /\ connB' = FALSE /\ last' = <<"LossB", 0>>
+         /\ UNCHANGED <<issued, oq, connB, linkUp, wire, acks, wm, delivered, cand, inq, cuts>>
+LossB == /\ ~linkUp /\ (connB \/ cand) /\ connB' = FALSE /\ cand' = FALSE /\ inq' = <<>> /\ last' = <<"LossB", 0>>
          /\ UNCHANGED <<issued, oq, connA, linkUp, wire, acks, wm, delivered, cuts>>
 \* a new connection is selected on both sides: use_connection re-sends the whole outbound queue, in order
-Reconnect == /\ ~linkUp /\ ~connA /\ ~connB
+Reconnect == /\ ~Window /\ ~linkUp /\ ~connA /\ ~connB
              /\ linkUp' = TRUE /\ connA' = TRUE /\ connB' = TRUE /\ wire' = oq /\ acks' = <<>>
              /\ last' = <<"Reconnect", Len(oq)>>
-             /\ UNCHANGED <<issued, oq, wm, delivered, cuts>>
+             /\ UNCHANGED <<issued, oq, wm, delivered, cand, inq, cuts>>
+\* Window: the Leader A selects the new connection (its KCM reaches B, whose end becomes a candidate) ...
+ReconnectA == /\ Window /\ ~linkUp /\ ~connA /\ ~connB /\ ~cand
+              /\ linkUp' = TRUE /\ connA' = TRUE /\ cand' = TRUE /\ inq' = <<>> /\ wire' = oq /\ acks' = <<>>
+              /\ last' = <<"ReconnectA", Len(oq)>>
+              /\ UNCHANGED <<issued, oq, connB, wm, delivered, cuts>>
+\* ... and later B's accept() turn selects it: the waiting records go to B's Manager in arrival order.
+\* (Connector.select_and_stop_remaining calls c.select(manager) - which empties the queue - before
+\* manager.connector_connection_made(c) gives B's Outbound the connection: the acks of these records are issued
+\* through send_if_connected() while there is no connection yet and vanish.  Acks are cumulative, so the next one
+\* covers them; if there is no next one the records are simply sent again after the next reconnect.)
+RECURSIVE ProcQ(_, _)
+ProcQ(q, r) == IF q = <<>> THEN r
+               ELSE LET s == Head(q) IN
+                    ProcQ(Tail(q), IF s + 1 <= r.wm THEN r ELSE [wm |-> s + 1, delivered |-> Append(r.delivered, s)])
+SelectB == /\ cand
+           /\ LET r == ProcQ(inq, [wm |-> wm, delivered |-> delivered]) IN
+              /\ wm' = r.wm /\ delivered' = r.delivered /\ acks' = acks
+           /\ cand' = FALSE /\ inq' = <<>> /\ connB' = TRUE
+           /\ last' = <<"SelectB", Len(inq)>>
+           /\ UNCHANGED <<issued, oq, connA, linkUp, wire, cuts>>
 
-Next == AppSend \/ DeliverRec \/ DeliverAck \/ Cut \/ LossA \/ LossB \/ Reconnect
-Spec == Init /\ [][Next]_vars /\ WF_vars(DeliverRec \/ DeliverAck \/ LossA \/ LossB \/ Reconnect)
+Next == AppSend \/ DeliverRec \/ DeliverAck \/ Cut \/ LossA \/ LossB \/ Reconnect \/ ReconnectA \/ SelectB
+Spec == Init /\ [][Next]_vars /\ WF_vars(DeliverRec \/ DeliverAck \/ LossA \/ LossB \/ Reconnect \/ ReconnectA \/ SelectB)
 
 \* ---- properties --------------------------------------------------------------------------------------------
 \* exactly once, in the order issued
